@@ -8,6 +8,7 @@ import (
 	"fmt"
 	"io"
 	"os"
+	"path/filepath"
 	"strings"
 
 	"github.com/openziti/storage/boltz"
@@ -22,6 +23,7 @@ type metaModel struct {
 
 type snapRec struct {
 	kind  string // file | stream
+	path  string // file: where the library wrote it
 	id    string
 	data  []byte
 	model *Model
@@ -125,6 +127,8 @@ func (r *Run) execSnapshot(t *Task, idx int, tx *TxPlan) {
 				path = r.dir + "/snap-same"
 			case "template":
 				path = "__DB_DIR__/snap-of-__DB_FILE__-DATE-TIME"
+			case "nextToDb":
+				path = "__DB_DIR__/__DB_FILE__.snapshot.keep" // the user's own naming scheme, next to the database file
 			}
 		}
 		actual, id, err := r.db.Snapshot(path)
@@ -136,7 +140,7 @@ func (r *Run) execSnapshot(t *Task, idx int, tx *TxPlan) {
 			r.s.HarnessError("read snapshot: " + err.Error())
 			panic(abortSig{})
 		}
-		rec.id, rec.data = id, data
+		rec.id, rec.data, rec.path = id, data, actual
 		if traceHooks {
 			fi, _ := os.Stat(r.path)
 			var hw int64
@@ -214,7 +218,19 @@ func (r *Run) execRestore(t *Task, idx int, tx *TxPlan) {
 	}()
 	r.mu.Lock()
 	r.restoring = nil
+	var paths []string
+	for _, s := range r.snaps {
+		if s.path != "" {
+			paths = append(paths, s.path)
+		}
+	}
 	r.mu.Unlock()
+	// the snapshot files the application took are its own: nothing the library does may remove them
+	for _, p := range paths {
+		if _, err := os.Stat(p); err != nil {
+			r.snapViolation("snapshot-file-vanished", "the snapshot file %s written by Snapshot() no longer exists after a restore: %v", filepath.Base(p), err)
+		}
+	}
 	r.recordHist(histOp{Task: t.Name, Kind: "restore", Call: callSeq, Ret: r.s.NextSeq(), Nonce: rec.nonce, Effect: !panicked})
 	if failAt >= 0 {
 		r.bump(&r.res.FaultsHit, "F11-reader")
